@@ -163,3 +163,14 @@ Theorem C08_old_name_refuted :
     old_name_v2 (s ++ [sep]) = [] /\ name_of cwd (s ++ [sep]) = s.
 Proof. exact old_name_refuted. Qed.
 Print Assumptions C08_old_name_refuted.
+
+(* THE SOURCE, READ STATICALLY.  Gen/GenDeterminism.v is regenerated from the whole package on every run by a fail-closed
+   reading (gen/gen_determinism.py): every name ever bound to a set, and every use of a set, must be order-insensitive
+   (membership, len, sorted, set algebra, ...) -- iterating one would let the string hash seed (PYTHONHASHSEED) into the result;
+   every directory listing in torrent.py / hasher.py / utils.py must be sorted before use.  The translator refuses otherwise;
+   accepted means: no such use exists in the source as it is now. *)
+From TF Require Import Gen.GenDeterminism Proofs.DeterminismInstance.
+Theorem C08_source_no_hash_seed_or_listing_order_leak :
+  gen_set_order_leaks = [] /\ gen_unsorted_listings = [] /\ (1 <= gen_listings_checked)%nat.
+Proof. exact gen_no_order_leak. Qed.
+Print Assumptions C08_source_no_hash_seed_or_listing_order_leak.
